@@ -308,7 +308,14 @@ def run_shard(ctx, prm):
                 nch, fr = rng.choice([(1, 69), (3, 23), (1, 3), (3, 1), (1, 69), (3, 23)])
                 k = rng.choice([1, 2, 3])
                 bf = rng.choice([[fr] * k, [fr] * k + [rng.randrange(1, fr)] if fr > 1 else [fr] * (k + 1), [rng.randrange(1, 65)] + [fr] * k])
-                passes.append(G.random_pass(rng, channels=nch, block_frames=bf))
+                pm = G.random_pass(rng, channels=nch, block_frames=bf, unique_values=False)
+                # a block is the first block of a pass by position, never by content either: zeros (and words that would read
+                # as a small channel count) anywhere in a block of header size
+                for ch in pm.words:
+                    for i in range(len(ch)):
+                        if rng.random() < 0.2:
+                            ch[i] = rng.choice([b'\x00\x00\x00\x00', b'\x00\x00\x00\x00', b'\x00\x03\x00\x00', b'\x00\x14\x00\x00'])
+                passes.append(pm)
             data, model = G.write_file(passes)
         elif n % 11 == 7:
             # a pass of at most one frame whose stop depth equals its start depth (nothing to move towards), among ordinary passes
